@@ -59,33 +59,51 @@ def concatenate(fields, target={}, resources=None):
                 continue
 
             schema = resource.get('schema', {})
-            pk = schema.get('primaryKey', [])
             for field in schema.get('fields', []):
                 orig_name = field['name']
                 if orig_name in field_mapping:
                     name = field_mapping[orig_name]
                     if name not in needed_fields:
                         continue
-                    if orig_name in pk:
-                        target_['schema']['primaryKey'].append(name)
                     # a copy: the source field may be shared with resources that are not concatenated
                     target_['schema']['fields'].append(dict(field, name=name))
                     needed_fields.remove(name)
 
-        if len(target_['schema']['primaryKey']) == 0:
-            del target_['schema']['primaryKey']
-
-        # a target field that one of the concatenated resources does not provide is null in its rows
+        # What the target declares has to hold for the rows of ALL the concatenated resources
         selected = [r for r in package.pkg.descriptor['resources'] if matcher.match(r['name'])]
         for field in target_['schema']['fields']:
             constraints = field.get('constraints')
-            if isinstance(constraints, dict) and constraints.get('required'):
-                if not all(any(field_mapping.get(f['name']) == field['name']
-                               for f in r.get('schema', {}).get('fields', []))
-                           for r in selected):
-                    constraints = dict(constraints)
-                    del constraints['required']
-                    field['constraints'] = constraints
+            if not isinstance(constraints, dict):
+                continue
+            providers = [
+                [f for f in r.get('schema', {}).get('fields', []) if field_mapping.get(f['name']) == field['name']]
+                for r in selected
+            ]
+            # a constraint stays if every resource declares the same one for (each of) its source field(s);
+            # a field some resource does not provide is null in its rows; values unique within
+            # each resource need not be unique across them
+            kept = dict(
+                (k, v) for k, v in constraints.items()
+                if all(len(fs) > 0 and all((f.get('constraints') or {}).get(k) == v for f in fs) for fs in providers)
+                and not (k == 'unique' and len(selected) > 1)
+            )
+            if kept:
+                field['constraints'] = kept
+            else:
+                del field['constraints']
+
+        # a key of one resource is a key of the target only if that resource is all there is
+        # and the whole key is mapped
+        primary_key = []
+        if len(selected) == 1:
+            pk = selected[0].get('schema', {}).get('primaryKey') or []
+            pk = [pk] if isinstance(pk, str) else list(pk)
+            if pk and all(k in field_mapping and field_mapping[k] in fields for k in pk):
+                primary_key = [field_mapping[k] for k in pk]
+        if primary_key:
+            target_['schema']['primaryKey'] = primary_key
+        else:
+            del target_['schema']['primaryKey']
 
         for name in needed_fields:
             target_['schema']['fields'].append(dict(
